@@ -16,8 +16,10 @@ open Genshi Genshi.Xml Genshi.Sexp
     tok <text>                         -> ( ok tokens ) | N
     read <text>                        -> ( ok events ) | N
     roundtrip <ranges> <stream>        -> read (enc (ser stream))
-    domain <pref> <stream>             -> ( inDomain conclusionHolds inTextDomain textConclusionHolds ) for
-                                          xml_roundtrip_events / xml_roundtrip_partial
+    domain <pref> <stream>             -> ( inDomain conclusionHolds inTextDomain textConclusionHolds ... ) for
+                                          xml_roundtrip_events / xml_roundtrip_partial / xml_roundtrip /
+                                          ser_idempotent_partial / ser_idempotent_builder(_events) /
+                                          ser_idempotent_parsed_text (see the comments in the verb)
     reparse <text>                     -> ( ok events-after-EmptyTagFilter ) | N   (spec-side parse)
     coalesce <stream>                  -> stream
     qname <text>                       -> ( ns loc )
@@ -62,14 +64,6 @@ def ranges? : Sexp → Option (List (Nat × Nat))
 def okList (f : α → Sexp) : Option (List α) → Sexp
   | some xs => .list [.atom "ok", .list (xs.map f)]
   | none => .atom "N"
-
-/-- white space outside the root element is not reported by a parser -/
-def dropTopWs : Nat → List FEv → List FEv
-  | _, [] => []
-  | d, .start n a :: es => .start n a :: dropTopWs (d + 1) es
-  | d, .end_ n :: es => .end_ n :: dropTopWs (d - 1) es
-  | 0, .other (.text s f) :: es => if s.all Reader.isSpace then dropTopWs 0 es else .other (.text s f) :: dropTopWs 0 es
-  | d, e :: es => e :: dropTopWs d es
 
 def handle : List Sexp → Option Sexp
   | [.atom "emptytag", s] => do
@@ -119,15 +113,27 @@ def handle : List Sexp → Option Sexp
       let inputHolds := match serRun SerSt.init (flatten p xs) with
         | some out => decide (Reader.read out = some (mergeR (canonX xs)))
         | none => false
+      -- idempotence for builder streams (ser_idempotent_builder_events), and at text level under ASCII
+      -- (ser_idempotent_builder, ser_idempotent_parsed_text)
+      let inB := inDom && builderShaped xs
+      let bHolds := match reparseX PSt.init ((flatten p xs).map normF) with
+        | some xs2 => decide ((flatten p xs2).map normF = (flatten p xs).map normF)
+        | none => false
+      let inBT := inB && inputTextOKm ascii p xs
+      let inPT := inIdem && inputTextOK ascii p xs
+      let textIdemHolds := match serRun SerSt.init (flatten p xs) with
+        | some out =>
+            (match parseText (encodeText ascii out) with
+             | some xs2 => decide (serRun SerSt.init (flatten p xs2) = some out)
+             | none => false)
+        | none => false
       pure (.list [ofBool inDom, ofBool holds, ofBool inText, ofBool textHolds, ofBool inAscii, ofBool asciiHolds,
-                   ofBool inIdem, ofBool idemHolds, ofBool inInput, ofBool inputHolds])
+                   ofBool inIdem, ofBool idemHolds, ofBool inInput, ofBool inputHolds,
+                   ofBool inB, ofBool bHolds, ofBool inBT, ofBool inPT, ofBool textIdemHolds])
   | [.atom "reparse", .str t] =>
       -- what XMLParser + EmptyTagFilter deliver for this text, according to the specification side
-      match Reader.tokenize t with
-      | some toks =>
-          match reparseX PSt.init (dropTopWs 0 toks) with
-          | some xs => some (.list [.atom "ok", .list (xs.map xev)])
-          | none => some (.atom "N")
+      match parseText t with
+      | some xs => some (.list [.atom "ok", .list (xs.map xev)])
       | none => some (.atom "N")
   | [.atom "coalesce", s] => do
       let s ← streamOfSexp? s
